@@ -321,7 +321,7 @@ impl Pattern {
             }
         }
 
-        let results: Vec<_> = paths_so_far
+        let mut results: Vec<_> = paths_so_far
             .into_iter()
             .filter_map(|path| {
                 if let Some(filter) = path_filter
@@ -347,6 +347,11 @@ impl Pattern {
                 Some(path_ref.to_string())
             })
             .collect();
+
+        // Sort the resulting words as whole strings (as bash does); sorting the
+        // entries of each directory while walking is not enough for patterns with
+        // several components, e.g. `*/x` with directories `a` and `a-`.
+        results.sort();
 
         tracing::debug!(target: trace_categories::PATTERN, "  => results: {results:?}");
 
